@@ -128,3 +128,19 @@ def ordering_table(test: ast.AST, a: str, b: str) -> dict[str, bool]:
         "eq": bool(_ev(test, {a: 2, b: 2})),
         "gt": bool(_ev(test, {a: 3, b: 2})),
     }
+
+
+def must_reach_in_iteration(cfg: CFG, loop: N, targets: list[N], valuation: dict[str, bool]) -> bool:
+    """Under ``valuation`` every path through one iteration of ``loop`` (from the first body
+    node back to the loop header, normal edges only) passes one of ``targets``."""
+    from sa.cfg import specialize, both
+
+    starts = [t for t, l, _ in loop.succ if l == "T"]
+    if not starts or not targets:
+        return False
+
+    def no_exc(a, b, l, i):
+        return l != "exc"
+
+    ef = both(no_exc, specialize(valuation, cfg))
+    return all_paths_pass(starts[0], loop, targets, ef) and all(all_paths_pass(starts[0], ex, targets, ef) for ex in (cfg.exit_return,))
